@@ -396,11 +396,12 @@ func runWriterOverlap(seed int64, rounds int, report func(key, msg string), eval
 	calls := buildAPICalls(seed)
 	var ext []int
 	for i, c := range calls {
-		if strings.HasPrefix(c.name, "Encode:") && (strings.Contains(c.name, "exif") || strings.Contains(c.name, "icc") || strings.Contains(c.name, "alpha")) {
+		if strings.HasPrefix(c.name, "Encode:") && (strings.Contains(c.name, "exif") || strings.Contains(c.name, "icc") || strings.Contains(c.name, "alpha")) && !strings.Contains(c.name, "best-filter-m6") {
 			ext = append(ext, i)
 		}
 	}
 	solo := map[int]string{}
+	cpuSolo0 := procCPU(os.Getpid())
 	for _, i := range ext {
 		d, err := calls[i].run()
 		if err != nil {
@@ -408,6 +409,12 @@ func runWriterOverlap(seed int64, rounds int, report func(key, msg string), eval
 			return
 		}
 		solo[i] = d
+	}
+	// the CPU time one pass over the calls takes in this build (plain or -race) scales the budget below
+	expected := (procCPU(os.Getpid()) - cpuSolo0) * time.Duration(6*rounds)
+	limit := 120 * time.Second
+	if l := expected * 3 / 2; l > limit {
+		limit = l
 	}
 	defer runtime.GOMAXPROCS(runtime.GOMAXPROCS(2))
 	rng := rand.New(rand.NewSource(seed))
@@ -437,7 +444,7 @@ func runWriterOverlap(seed int64, rounds int, report func(key, msg string), eval
 	select {
 	case <-done:
 	case <-time.After(120 * time.Second):
-		if v := hangVerdict(done, cpu0, 120*time.Second); v != "finished" {
+		if v := hangVerdict(done, cpu0, limit); v != "finished" {
 			report("deadlock|writer-overlap", "overlapping Encode calls did not return within 120 s ("+v+")")
 			return
 		}
